@@ -3225,20 +3225,42 @@ fn main() {
     }
 
     // witnesses of listed findings that are plain scripts with an expected error line
-    for e in cx.rep.known_open() {
+    // (status known: still failing → KNOWN-FINDING; status fixed: a regression check — the witness must
+    // run through in both modes, anything else is a VIOLATION)
+    for e in cx.rep.known_entries() {
         let id = e["id"].as_str().unwrap_or("").to_string();
+        let fixed = e["status"].as_str() == Some("fixed");
         let (line, what) = match id.as_str() {
             "F-C16-5" => ("expected Iterable, found Foo", "`Iterable` still rejects a map with a metamap that `for` iterates"),
+            "F-C16-6" => ("", "a hinted wildcard over several match subjects sees the internal TemporaryTuple"),
             "F-C16-7" => ("expected Indexable, found Range", "`Indexable` still rejects a range although `r[0]` works"),
             _ => continue,
         };
-        if let Some(w) = e["witness"].as_str() {
-            let (out, _, _) = run_koto(w, true);
-            if out == Out::Err(line.into()) {
-                cx.rep.known(&id, what);
-            } else {
-                cx.rep.note(format!("{}: witness no longer fails ({:?})", id, out));
-            }
+        let Some(w) = e["witness"].as_str() else { continue };
+        cx.rep.case(&format!("witness {}", id), true);
+        cx.rep.bump("kind=finding-witness");
+        let (on, on_lines, _) = run_koto(w, true);
+        let (off, off_lines, _) = run_koto(w, false);
+        // F-C16-6's witness prints which arm was taken
+        let failing = if id == "F-C16-6" {
+            !matches!(on, Out::Ok(_)) || trace_text(&on_lines) != "tuple" || trace_text(&off_lines) != "tuple"
+        } else {
+            !matches!(on, Out::Ok(_)) || on != off || on_lines != off_lines
+        };
+        if !failing {
+            continue;
+        }
+        if !fixed && (id == "F-C16-6" || on == Out::Err(line.into())) {
+            cx.rep.known(&id, what);
+        } else {
+            cx.d_fail += 1;
+            cx.rep.violation(
+                "D",
+                &format!("C16:regression:{}", id),
+                json!({"script": w, "impl_on": format!("{:?}", on), "impl_on_output": trace_text(&on_lines),
+                       "impl_off": format!("{:?}", off), "impl_off_output": trace_text(&off_lines),
+                       "note": format!("witness of {} ({}) fails{}", id, what, if fixed { " again although the finding is recorded as fixed" } else { " in an unexpected way" })}),
+            );
         }
     }
 
